@@ -56,7 +56,10 @@ def rand_op(rng):
         return ["assign", rng.randrange(8), rng.randrange(len(UNIVERSE))]
     if r < 0.72:
         return ["reassign", rng.randrange(8)]  # job.statepoint = <the value it already has>: a re-key onto itself
-    if r < 0.84:
+    if r < 0.77:
+        # time stamps as a restore from backup or an out-of-step clock leaves them
+        return ["skew", rng.choice(["workspace-older", "cache-older", "both-epoch"])]
+    if r < 0.86:
         return ["update_cache", rng.choice(["A", "B", "fresh"])]
     if r < 0.92:
         return ["restart"]
@@ -391,6 +394,20 @@ def run_case(ctx, case):
                 break
         elif kind == "restart":
             A = signac.Project(path)
+        elif kind == "skew":
+            fn_cache = os.path.join(path, model.CACHE_FILE)
+            ws = os.path.join(path, "workspace")
+            if os.path.exists(fn_cache) and os.path.isdir(ws):
+                tc = os.stat(fn_cache).st_mtime
+                if op[1] == "workspace-older":
+                    os.utime(ws, (tc - 3600, tc - 3600))
+                elif op[1] == "cache-older":
+                    tw = os.stat(ws).st_mtime
+                    os.utime(fn_cache, (tw - 3600, tw - 3600))
+                else:
+                    os.utime(ws, (0, 0))
+                    os.utime(fn_cache, (0, 0))
+                ctx.count("mtime_skews")
         elif kind == "delcache":
             try:
                 os.remove(os.path.join(path, model.CACHE_FILE))
